@@ -66,6 +66,7 @@ class Profile:
         self.special_types = True
         self.typedef_of_enumerated = False   # typedefs whose arguments repeat an enumerated instantiation (instantiator checks only)
         self.member_param_values = False     # class instantiation values spelled like a member's own template parameter
+        self.fwd_of_defined = False          # forward declaration of a class defined in the same scope (parser checks only)
         self.same_name_values = False  # instantiation values with one unqualified name in two namespaces (instantiator checks only)
         self.layout_defaults = False   # defaults with inner runs of blanks / line breaks (parser checks only)
         self.__dict__.update(kw)
@@ -481,6 +482,12 @@ class Gen:
                         params.append(('ty', ('tn', list(v[1]), v[2], []), False, '', v[2] in BASIC and not v[1]))
                     self.count('typedef_of_enumerated')
             res.append(('typedef', ('tt', [], name, params, False, ''), self.fresh(used, PLAIN_IDS + ['Alias', 'TD'])))
+        if self.p.fwd_of_defined:
+            # `class X;` next to the definition of X in the same scope (before or after it)
+            for c in [d for d in res if d[0] == 'class']:
+                if r.random() < 0.3:
+                    res.insert(r.randrange(len(res) + 1), ('fwd', c[2] and r.random() < 0.5, ('tn', [], c[3], []), None))
+                    self.count('fwd_of_defined_class')
         return res
 
     def module(self):
